@@ -80,6 +80,11 @@ where
         if let Some(o) = r {
             return o;
         }
+        crate::lin::check_history(&ctx, si);
+        if crate::oracle::settle(&ctx).await {
+            *ctx.last_step_note.borrow_mut() = format!("at quiescence after the concurrent session {}", si);
+            check_all_queries::<K>(&ctx, &shared, "quiescent", 2_000_000 + si as u32).await;
+        }
         let storage = match Rc::try_unwrap(shared) {
             Ok(s) => s,
             Err(_) => {
@@ -218,6 +223,10 @@ where
             }
             *st = Some(storage);
             maintenance_seen = false;
+            continue;
+        }
+        if let OpKind::CheckDumped = &op.kind {
+            crate::oracle::check_dumped::<K>(ctx, st.as_ref().unwrap()).await;
             continue;
         }
         if let OpKind::Damage(d) = &op.kind {
@@ -485,6 +494,8 @@ pub fn base_phase(plan: &Plan, si: usize) -> Option<&'static str> {
         Some("cancel")
     } else if b.starts_with("bitflip") {
         Some("bitflip")
+    } else if b.starts_with("conc") {
+        Some("quiescent")
     } else {
         None
     }
